@@ -30,7 +30,7 @@ ConvBase(B, c) ==
                           [] c = "Spad" -> "s: a " [] OTHER -> "ERR")
     [] B = "f64"    -> (CASE c = "I7" -> "f:7.0" [] c = "F1.5" -> "f:1.5" [] c = "F2" -> "f:2.0"
                           [] c = "S12" -> "f:12.0" [] c = "S1.5" -> "f:1.5" [] OTHER -> "ERR")
-    [] B = "i64"    -> (CASE c = "I7" -> "i:7" [] c = "F2" -> "i:2" [] c = "F1.5" -> "i:1"
+    [] B = "i64"    -> (CASE c = "I7" -> "i:7" [] c = "Ibig" -> "i:9007199254740993" [] c = "F2" -> "i:2" [] c = "F1.5" -> "i:1"
                           [] c = "S12" -> "i:12" [] OTHER -> "ERR")
     [] B = "bool"   -> (CASE c = "B1" -> "b:true" [] c = "B0" -> "b:false" [] c = "STRUE" -> "b:true"
                           [] c = "Sfalse" -> "b:false" [] c = "E" -> "b:false" [] c = "Strue" -> "b:true"
@@ -38,7 +38,7 @@ ConvBase(B, c) ==
                           [] OTHER -> "ERR")
     \* fallback helpers deserialize_as_i64_or_none / deserialize_as_f64_or_none: the value when the
     \* cell is numeric (numbers, booleans, numeric strings), None otherwise -- never an error
-    [] B = "I64OrNone" -> (CASE c = "I7" -> "i:7" [] c = "F2" -> "i:2" [] c = "F1.5" -> "i:1" [] c = "S12" -> "i:12"
+    [] B = "I64OrNone" -> (CASE c = "I7" -> "i:7" [] c = "Ibig" -> "i:9007199254740993" [] c = "F2" -> "i:2" [] c = "F1.5" -> "i:1" [] c = "S12" -> "i:12"
                              [] c = "B1" -> "i:1" [] c = "B0" -> "i:0" [] OTHER -> "none")
     [] B = "F64OrNone" -> (CASE c = "I7" -> "f:7.0" [] c = "F2" -> "f:2.0" [] c = "F1.5" -> "f:1.5" [] c = "S12" -> "f:12.0"
                              [] c = "S1.5" -> "f:1.5" [] c = "B1" -> "f:1.0" [] c = "B0" -> "f:0.0" [] OTHER -> "none")
@@ -54,10 +54,10 @@ OkCodes(T) ==
   LET B == Base(T)
       ok == CASE B = "String" -> {"E", "S0", "Sx", "S12", "Spad"}
               [] B = "f64"  -> {"I7", "F1.5", "F2", "S12", "S1.5", "Sx"}
-              [] B = "i64"  -> {"I7", "F2", "F1.5", "S12", "Sx"}
+              [] B = "i64"  -> {"I7", "Ibig", "F2", "F1.5", "S12", "Sx"}     \* Ibig = 2^53 + 1: an integer cell keeps its value
               [] B = "bool" -> {"B1", "B0", "STRUE", "Sfalse", "Strue", "STrue", "SFALSE", "SFalse", "E", "Sx"}
               [] B = "Data" -> {"E", "S0", "I7", "F1.5", "Sx", "B1"}
-              [] B = "I64OrNone" -> {"E", "I7", "F2", "F1.5", "S12", "S1.5", "Sx", "B1", "B0", "STRUE"}
+              [] B = "I64OrNone" -> {"E", "I7", "Ibig", "F2", "F1.5", "S12", "S1.5", "Sx", "B1", "B0", "STRUE"}
               [] B = "F64OrNone" -> {"E", "I7", "F2", "F1.5", "S12", "S1.5", "Sx", "B1", "B0", "STRUE"}
   IN ok \cup (IF IsOpt(T) THEN {"E"} ELSE {})
 
